@@ -148,7 +148,10 @@ Clause(name, ww, e) ==
          (Ok(e) /\ e.a \in ValueEvents /\ sel # {} /\ IsUGrid(ww) /\ OkT(e.obs.ok, "fn")) =>
             LET o == e.obs.ok IN
             /\ ValidMesh(Tab(o, "fn"))
-            /\ (OkT(o, "ff") => FaceFaceSymmetricEdgeSharing(Tab(o, "fn"), Tab(o, "ff")))
+            \* (face adjacency is derived through the edges: with face-edge / edge-face supplied but no edge-node the edge
+            \*  numbering has no defined reading, unless face-face itself is supplied)
+            /\ ((OkT(o, "ff") /\ (Sup(ww, "ff") \/ Sup(ww, "en") \/ (~Sup(ww, "fe") /\ ~Sup(ww, "ef")))) =>
+                    FaceFaceSymmetricEdgeSharing(Tab(o, "fn"), Tab(o, "ff")))
             /\ ((ww.nedge >= 0 /\ (Sup(ww, "en") \/ (~Sup(ww, "fe") /\ ~Sup(ww, "ef"))) /\ OkT(o, "en") /\ OkT(o, "fe") /\ OkT(o, "ef")) =>
                   /\ IsEdgeNodeFor(Tab(o, "fn"), Tab(o, "en"))
                   /\ FaceEdgesAreConsecutivePairs(Tab(o, "fn"), Tab(o, "en"), Tab(o, "fe"))
